@@ -50,6 +50,49 @@ class Mode:
         return self.unpt(x)
 
 
+class IntKnotMode(Mode):
+    """knots, parameters, control points and weights as plain Python ints wherever the value is integral (the way the
+    library's own documentation writes its examples; GeneratorKnotVector.integer makes int knots by default).  The
+    library promises exact results for Fraction knots only, so this mode compares VALUES to 1e-9 and ignores types."""
+    name = "int-knots"
+    exact = False
+
+    def num(self, q):
+        if list(q) == NAN:
+            return "not-a-number"
+        f = fr(q)
+        return int(f) if f.denominator == 1 else f
+
+    def pt(self, q):
+        return self.num(q)
+
+
+class FarFloatMode(Mode):
+    """float knots far from the origin with short spans: u -> 2^20 + u * 2^-10.  Only transitions whose knots and
+    parameters are dyadic (exactly representable after the map) are replayed, so the float input IS the exact input and
+    the spec's values (invariant under the affine map of the parameter) must be met to rounding; formulas that subtract
+    large nearly equal numbers lose everything here"""
+    name = "far-float"
+    exact = False
+
+    def num(self, q):
+        if list(q) == NAN:
+            return "not-a-number"
+        f = fr(q)
+        return float(2 ** 20 + f * Fraction(1, 2 ** 10))
+
+    def pt(self, q):
+        return float(fr(q))
+
+    def unnum(self, x):
+        return (Fraction(x) - 2 ** 20) * 2 ** 10
+
+
+def dyadic(q):
+    d = fr(q).denominator
+    return (d & (d - 1)) == 0 and d <= 64
+
+
 class StretchMode(Mode):
     """an ORDER-ISOMORPHIC image of the rationals: u for u <= 3, 10^13 * u above.  Everything a knot vector does except
     shift / scale / normalize / evaluation depends only on order and equality of the numbers, so the small spec state is
@@ -168,7 +211,7 @@ class MinPointMode(Mode):
         return MinPt(fr(q))
 
 
-MODES = {"stretch": StretchMode, "tiny-weights": TinyWeightMode, "huge": HugeMode, "minimal-point": MinPointMode, "fraction": Mode, "int": IntMode, "float": FloatMode, "numpy.float64": NpFloatMode}
+MODES = {"int-knots": IntKnotMode, "far-float": FarFloatMode, "stretch": StretchMode, "tiny-weights": TinyWeightMode, "huge": HugeMode, "minimal-point": MinPointMode, "fraction": Mode, "int": IntMode, "float": FloatMode, "numpy.float64": NpFloatMode}
 
 
 def classify(exc):
@@ -323,6 +366,16 @@ class Replayer:
     # KnotVector actions
     def do_KvNew(self, live, a):
         seq = self.mode.nums(a["seq"])
+        if "not-a-number" in seq:
+            # the spec's NaN stands for everything that is no number: a string here, and the IEEE nan (numeric type, but
+            # unordered) in a second construction that must be refused just the same
+            nanseq = [float("nan") if x == "not-a-number" else x for x in seq]
+            try:
+                kv = self.KnotVector(nanseq) if a["deg"] == -1 else self.KnotVector(nanseq, a["deg"])
+            except ValueError:
+                kv = None
+            if kv is not None:
+                raise AssertionError(f"KnotVector({nanseq}) with a float nan was accepted: {list(kv)}")
         if a["deg"] == -1:
             live[a["obj"]] = self.KnotVector(seq)
         else:
@@ -1078,6 +1131,31 @@ class Replayer:
                 err = rat(Fraction(float(val["err"])))
             act = {"name": name, "kv": t["pre"][a["obj"]]["U"], "nodes": a["nodes"], "err": err}
             eqs = t["ret"].get("val")
+            if isinstance(eqs, dict) and eqs.get("closed_form") and d is not None:
+                # Bezier source and target of high degree: closed-form Bernstein integrals from the specification, the
+                # (large) observed numbers are combined here
+                try:
+                    D = [fr(x) for x in d["P"]]
+                    P = [fr(x) for x in a["other"]["P"]]
+                    G, X, SS = eqs["gram"], eqs["cross"], eqs["self"]
+                    if any(list(x) == NAN for tab in (G, X, SS) for row in tab for x in row):
+                        return
+                    rhs = [sum(P[k] * fr(X[k][i]) for k in range(len(P))) for i in range(len(D))]
+                    res = [sum(fr(G[j][i]) * D[j] for j in range(len(D))) - rhs[i] for i in range(len(D))]
+                    if any(r != 0 for r in res):
+                        fails.append("residual_orthogonal: the fitted control points do not satisfy the normal equations built from the "
+                                     f"closed-form Bernstein integrals (degree {len(P) - 1} -> {len(D) - 1}; largest defect "
+                                     f"{float(max(abs(r) for r in res)):.3e})")
+                    cc = sum(P[k] * P[l] * fr(SS[k][l]) for k in range(len(P)) for l in range(len(P)))
+                    l2 = cc - 2 * sum(D[i] * rhs[i] for i in range(len(D))) + sum(
+                        D[i] * fr(G[i][j]) * D[j] for i in range(len(D)) for j in range(len(D)))
+                    E = fr(err)
+                    if E < 0 or (E != l2 and 2 * E != l2):
+                        fails.append(f"err_is_multiple_of_L2: returned error {float(E):.6e}, exact integral of the squared residual "
+                                     f"{float(l2):.6e} (degree {len(P) - 1} -> {len(D) - 1})")
+                except (KeyError, IndexError, TypeError) as e:
+                    raise core.MachineryError(f"closed-form tables of the model cannot be read: {e}")
+                return
             if isinstance(eqs, dict) and d is not None and not all(core.fits32(x) for x in d["P"]):
                 # too large for TLC: the observed points are plugged into the specification's normal equations here
                 try:
@@ -1458,10 +1536,35 @@ class Replayer:
         except Exception as e:
             fails.append(f"view raised {type(e).__name__}: {e}")
             return fails
+        # IEEE nan is inside no interval: not valid, span / mult raise ValueError, inserting or removing it is refused
+        import copy as _cp
+        import threading
+        nan = float("nan")
+        try:
+            if obj.valid([nan]):
+                fails.append("valid([nan]) is True")
+            else:
+                for q in (obj.span, obj.mult):
+                    try:
+                        q(nan)
+                        fails.append(f"{q.__name__}(nan) returned instead of raising ValueError")
+                    except ValueError:
+                        pass
+                trial = _cp.deepcopy(obj)
+                for op in (trial.insert, trial.remove):
+                    try:
+                        op([nan])
+                        fails.append(f"{op.__name__}([nan]) was accepted: {list(trial)}")
+                    except ValueError:
+                        pass
+                    except Exception as e:
+                        fails.append(f"{op.__name__}([nan]) raised {type(e).__name__}, not ValueError")
+        except Exception as e:
+            fails.append(f"valid([nan]) raised {type(e).__name__}: {e}")
         good = []
         for row in obs["q"]:
             u = self.mode.num(row["u"])
-            if not self.mode.exact:
+            if not self.mode.exact and self.mode.name != "far-float":   # (far-float inputs are exact by construction)
                 # a query AT a knot means at the library's own (rounded) value of that knot, which was compared with the
                 # spec's value just above; a knot computed as 1.0 + 2/7 differs from float(9/7) by one ulp
                 for k in obj.knots:
